@@ -629,6 +629,19 @@ func c39Grid(r *mc.R) (abandon, kvprefix []c39Params) {
 	r.Bound("side_lengths", sides)
 	r.Bound("freeze_thresholds", freezes)
 	r.Bound("kvprefix_max_canonical_len", kvMaxLen)
+	// pivot candidates: the middle (covers pivots at or below the flushed block), just above
+	// the flushed block, the tip; thorough also two above the flushed block
+	pivotCands := func(l, c int) []int {
+		if r.Quick() {
+			if l > 3 {
+				return []int{(l + 1) / 2} // quick: the pivots above the flushed block only for lengths <= 3
+			}
+			return []int{(l + 1) / 2, c + 1, l}
+		}
+		return []int{(l + 1) / 2, c + 1, c + 2, l}
+	}
+	kvSideMaxLen := mc.Pick(r, 2, 5) // kv-prefix histories with a side chain only up to this length
+	kvSnapMaxLen := mc.Pick(r, 2, 5) // kv-prefix histories with snapshots only up to this length
 	postMaxLen := mc.Pick(r, 3, 5) // post-recovery SetHead(k) dimension only for canonical lengths up to this
 	r.Bound("postop_max_canonical_len", postMaxLen)
 	type sc struct {
@@ -642,6 +655,9 @@ func c39Grid(r *mc.R) (abandon, kvprefix []c39Params) {
 	for _, s := range schemes {
 		for l := 1; l <= maxLen; l++ {
 			for _, side := range sides {
+				if r.Quick() && ((s.hist && side > 0) || (s.snaps && l > 3)) {
+					continue // quick: extra path configuration without side chains, snapshots up to length 3
+				}
 				forks := []int{0}
 				if side > 0 {
 					forks = forks[:0]
@@ -655,12 +671,12 @@ func c39Grid(r *mc.R) (abandon, kvprefix []c39Params) {
 							if fr > 0 && fr >= l {
 								continue // nothing would be frozen: same as freeze off
 							}
-							if fr > 0 && s.hist {
-								continue // freezing implies the ancient directory: covered by the hist=false entry
+							if s.hist && (fr > 0 || l > postMaxLen) {
+								continue // freezing implies the ancient directory (covered by the hist=false entry); the extra path configuration is bounded like the post-recovery dimension
 							}
 							// pivot markers: none, the middle, and just above / well above the flushed block
 							pivots := []int{0}
-							for _, pv := range []int{(l + 1) / 2, c + 1, c + 2, l} {
+							for _, pv := range pivotCands(l, c) {
 								if pv >= 1 && pv <= l && !slices.Contains(pivots, pv) && l >= 2 {
 									pivots = append(pivots, pv)
 								}
@@ -671,6 +687,9 @@ func c39Grid(r *mc.R) (abandon, kvprefix []c39Params) {
 								// post-recovery SetHead(k) for every k up to the recovered head block
 								if pv == 0 && l <= postMaxLen {
 									for k := 0; k <= c; k++ {
+										if r.Quick() && k == c && c > 0 {
+											continue // quick: SetHead(recovered head) changes nothing, thorough keeps it
+										}
 										q := base
 										q.PostOp = k
 										abandon = append(abandon, q)
@@ -678,7 +697,7 @@ func c39Grid(r *mc.R) (abandon, kvprefix []c39Params) {
 								}
 							}
 						}
-						if l <= kvMaxLen && !s.hist && (side == 0 || slices.Contains(kvSides, side)) {
+						if l <= kvMaxLen && !s.hist && (!s.snaps || l <= kvSnapMaxLen) && (side == 0 || (slices.Contains(kvSides, side) && l <= kvSideMaxLen)) {
 							kvprefix = append(kvprefix, c39Params{Scheme: s.scheme, Snapshots: s.snaps, Len: l, Side: side, Fork: fk, Commit: c, PostOp: -1})
 						}
 					}
